@@ -273,8 +273,11 @@ int fegetround(void);
                     /* fall through */ \
                 case CIF_NUMB_KIND: \
                     DESERIALIZE_USTRING(v->as_char.text, _buf, vfail); \
-                    if ((_kind == CIF_NUMB_KIND) && ((_D_result = cif_value_parse_numb(v, v->as_char.text)) != CIF_OK))\
+                    if ((_kind == CIF_NUMB_KIND) && ((_D_result = cif_value_parse_numb(v, v->as_char.text)) != CIF_OK)) { \
+                        /* the text still belongs to this code when it is not accepted */ \
+                        free(v->as_char.text); \
                         FAIL(vfail, _D_result); \
+                    } \
                     DESERIALIZE_QUOTED_FLAG(v->as_char.quoted, _buf, vfail); \
                     break; \
                 case CIF_LIST_KIND: \
